@@ -43,10 +43,15 @@ class Room:
         for i in range(ncf):
             p = np.array([rng.uniform(-1, 1), rng.uniform(-1, 1), rng.uniform(0.0, 1.0)])
             yaw = rng.uniform(-math.pi, math.pi)
+            if spec.get('yaw_mode') == 'quarter':
+                # level poses that differ from the first one by exact quarter turns (a Crazyflie put down along the walls)
+                yaw = 0.0 if i == 0 else float(rng.choice([0.0, 0.5 * math.pi, -0.5 * math.pi, -0.5 * math.pi, math.pi]))
             tilt_axis = np.array([rng.uniform(-1, 1), rng.uniform(-1, 1), 0.0])
             if np.linalg.norm(tilt_axis) < 1e-3:
                 tilt_axis = np.array([1.0, 0.0, 0.0])
             tilt = math.radians(rng.uniform(0, spec.get('max_tilt', 10.0)))
+            if spec.get('yaw_mode') == 'quarter':
+                tilt = 0.0
             R = rot_axis(tilt_axis, tilt) @ rot_axis([0, 0, 1], yaw)
             self.cfs.append((R, p))
         self.bs = {}
